@@ -63,6 +63,10 @@
 // original intrinsics (ES5 15.11.6/15.11.7), whatever a script did earlier to
 // the global bindings or to the mutable parts of the prototypes (hist.go).
 //
+// When one expression holds several error constructs the one ES5's evaluation
+// order reaches first surfaces (nested.go). The trace limit is a property of
+// the runtime however it was obtained (New, Copy, Copy of Copy; limits family).
+//
 // Code created by the Function constructor has no file in otto and the tests
 // pin nothing for it: such frames must be present with the right name, their
 // location is not asserted. At most `limit` frames are listed
@@ -99,6 +103,7 @@ func init() {
 			{Name: "stack4", Run: runStack4, ThoroughOnly: true},
 			{Name: "limits", Run: runLimits},
 			{Name: "wrap", Run: runWrap},
+			{Name: "nested", Run: runNested},
 			{Name: "files", Run: runFiles},
 			{Name: "syntax", Run: runSyntax},
 			{Name: "nonascii", Run: runNonASCII, Solo: true},
@@ -138,10 +143,60 @@ func modeFile(m int) string {
 // newVM returns a fresh runtime with the harness' host function: it calls its
 // argument through the Go API and re-panics the error, the idiom pinned by
 // error_native_test.go.
-func newVM(limit int) *otto.Otto {
+func newVM(limit int) *otto.Otto { return newVMFrom(originFresh, limit) }
+
+// Where the runtime comes from and how its trace limit was configured.
+const (
+	originFresh          = iota // otto.New(), limit set before anything is compiled
+	originSetLate               // otto.New(), limit set after the scripts were compiled, before the last Run
+	originCopy                  // Copy() of a runtime with stack depth limit S set first, then trace limit L
+	originCopyDepthLast         // Copy() of a runtime with trace limit L set first, then stack depth limit S
+	originCopyOfCopy            // Copy() of a Copy()
+	originCopyThenChange        // Copy(), then the ORIGINAL's limit is changed: the copy keeps its own
+	originCopyDefault           // Copy() of a runtime whose limit was never set (default 10; only with limit 10)
+	nOrigins
+)
+
+var originNames = []string{"fresh", "set-late", "copy", "copy-depth-last", "copy-of-copy", "copy-then-change", "copy-default"}
+
+// stackDepthLimit is the stack depth limit given to copied runtimes: larger
+// than any generated stack, different from every trace limit used.
+const stackDepthLimit = 200
+
+func newVMFrom(origin, limit int) *otto.Otto {
 	vm := otto.New()
-	if limit != 10 {
+	set := func(v *otto.Otto) {
+		if limit != 10 {
+			v.SetStackTraceLimit(limit)
+		}
+	}
+	switch origin {
+	case originFresh:
+		set(vm)
+	case originSetLate:
+		// set by execute
+	case originCopy:
+		vm.SetStackDepthLimit(stackDepthLimit)
 		vm.SetStackTraceLimit(limit)
+		vm = vm.Copy()
+	case originCopyDepthLast:
+		vm.SetStackTraceLimit(limit)
+		vm.SetStackDepthLimit(stackDepthLimit)
+		vm = vm.Copy()
+	case originCopyOfCopy:
+		vm.SetStackDepthLimit(stackDepthLimit)
+		vm.SetStackTraceLimit(limit)
+		vm = vm.Copy().Copy()
+	case originCopyThenChange:
+		vm.SetStackDepthLimit(stackDepthLimit)
+		vm.SetStackTraceLimit(limit)
+		c := vm.Copy()
+		vm.SetStackTraceLimit(limit + 5)
+		vm.SetStackDepthLimit(stackDepthLimit + 5)
+		vm = c
+	case originCopyDefault:
+		vm.SetStackDepthLimit(stackDepthLimit)
+		vm = vm.Copy()
 	}
 	// hostrun runs a nested script through the Go API and re-panics its error
 	vm.Set("hostrun", func(call otto.FunctionCall) otto.Value {
@@ -168,11 +223,18 @@ type script struct{ name, src string }
 // execute runs the scripts in order on a fresh runtime; every script but the
 // last must complete; the result is that of the last one.
 func execute(scripts []script, mode, limit int) ox.Result {
-	vm := newVM(limit)
+	return executeFrom(originFresh, scripts, mode, limit)
+}
+
+func executeFrom(origin int, scripts []script, mode, limit int) ox.Result {
+	vm := newVMFrom(origin, limit)
 	return ox.Guard(func() (otto.Value, error) {
 		var v otto.Value
 		for i, sc := range scripts {
 			var err error
+			if origin == originSetLate && i == len(scripts)-1 && mode == modeRun {
+				vm.SetStackTraceLimit(limit)
+			}
 			if mode == modeRun {
 				v, err = vm.Run(sc.src)
 			} else {
@@ -180,6 +242,9 @@ func execute(scripts []script, mode, limit int) ox.Result {
 				s, err = vm.Compile(sc.name, sc.src)
 				if err != nil {
 					return otto.Value{}, fmt.Errorf("compile: %w", err)
+				}
+				if origin == originSetLate && i == len(scripts)-1 {
+					vm.SetStackTraceLimit(limit)
 				}
 				v, err = vm.Run(s)
 			}
@@ -205,6 +270,7 @@ type tcase struct {
 	wrap   int
 	files  bool // every level is a declaration in a file of its own (family files)
 	args   int  // argument-list variant of the call sites (argVariants)
+	origin int  // where the runtime comes from (originNames)
 }
 
 func (c tcase) key() string {
@@ -217,6 +283,9 @@ func (c tcase) key() string {
 	}
 	if c.args != 0 {
 		k += "/args-" + argVariants[c.args]
+	}
+	if c.origin != 0 {
+		k += "/vm-" + originNames[c.origin]
 	}
 	return k
 }
@@ -272,7 +341,11 @@ func runTrace(r *engine.Run, c tcase) {
 		scripts = one(g.build(), c.mode)
 	}
 	r.Begin(key)
-	res := execute(scripts, c.mode, c.limit)
+	res := executeFrom(c.origin, scripts, c.mode, c.limit)
+	var stackLines = -1
+	if c.origin != originFresh {
+		stackLines = stackInCatch(c.origin, scripts, c.mode, c.limit)
+	}
 	r.End()
 	r.Tree(1, 1)
 	input := showScripts(scripts)
@@ -314,6 +387,11 @@ func runTrace(r *engine.Run, c tcase) {
 	}
 	if expText != obsText {
 		r.Mismatch(engine.Mismatch{Key: key + "#text", Input: input, Expected: expText, Observed: obsText, Aux: ax})
+	}
+	// e.stack seen by a catch clause on a runtime of the same origin obeys the same limit
+	if c.origin != originFresh && c.limit >= 1 && (stackLines < 1 || stackLines > c.limit) {
+		r.Mismatch(engine.Mismatch{Key: key + "#stack", Input: input, Expected: fmt.Sprintf("e.stack lists between 1 and %d frames", c.limit),
+			Observed: fmt.Sprintf("%d frames", stackLines), Aux: ax})
 	}
 	// trace
 	okTrace, expR := g.matches(0, c.limit, frames)
@@ -358,6 +436,20 @@ func runTrace(r *engine.Run, c tcase) {
 	}
 }
 
+// stackInCatch runs the scripts on a runtime of the given origin inside a catch
+// clause and returns the number of frames e.stack lists (-1: no such string).
+func stackInCatch(origin int, scripts []script, mode, limit int) int {
+	last := scripts[len(scripts)-1]
+	wrapped := append(append([]script{}, scripts[:len(scripts)-1]...),
+		script{last.name, "var __ev = eval, __st; try { __ev(" + ox.JSLit(last.src) + "); } catch (e) { __st = e.stack; } __st;"})
+	res := executeFrom(origin, wrapped, mode, limit)
+	if res.Panicked || res.Err != nil || !res.Value.IsString() {
+		return -1
+	}
+	s, _ := res.Value.ToString()
+	return strings.Count(s, "\n    at ")
+}
+
 // ---------------------------------------------------------------------------
 // Alphabets of the families
 // ---------------------------------------------------------------------------
@@ -365,7 +457,7 @@ func runTrace(r *engine.Run, c tcase) {
 func traceConstructs() []int {
 	var l []int
 	for i, k := range constructs {
-		if !k.nonErr && !k.noTrace {
+		if !k.nonErr && !k.noTrace && !k.nested {
 			l = append(l, i)
 		}
 	}
@@ -755,7 +847,6 @@ func runLimits(r *engine.Run) {
 	r.Bound("depth", fmt.Sprint(maxDepth))
 	r.Bound("limits", "0..12")
 	for pi, pat := range patterns {
-		_ = pi
 		for depth := 1; depth <= maxDepth; depth++ {
 			shapes := make([]shape, depth)
 			for i := range shapes {
@@ -766,6 +857,25 @@ func runLimits(r *engine.Run) {
 					for _, lay := range lays {
 						runTrace(r, tcase{shapes: shapes, ki: ki, lay: lay, mode: modeCompileNamed, limit: limit})
 					}
+				}
+			}
+			// the same stacks on runtimes of every other origin
+			if pi >= 2 && !r.Thorough() {
+				continue
+			}
+			for origin := 1; origin < nOrigins; origin++ {
+				for limit := 0; limit <= 12; limit++ {
+					if origin == originCopyDefault && limit != 10 {
+						continue
+					}
+					if !r.Thorough() && limit > 0 && limit%3 != 0 && limit != 10 && limit != 1 {
+						continue
+					}
+					m := modeCompileNamed
+					if origin == originSetLate && depth%2 == 0 {
+						m = modeRun
+					}
+					runTrace(r, tcase{shapes: shapes, ki: ks[0], lay: lays[0], mode: m, limit: limit, origin: origin})
 				}
 			}
 		}
